@@ -531,6 +531,45 @@ func TestC14(t *testing.T) {
 			}
 		}
 	}
+	// the same on rows of 9000 and 70000 pixels (transforms that move pixels in fixed-size runs)
+	for si := range sp.Spaces {
+		s := &sp.Spaces[si]
+		for wi, w := range []int{9000, 70000} {
+			for _, op := range []string{"Linearise", "Encode"} {
+				src := image.NewNRGBA64(image.Rect(3, 1, 3+w, 3))
+				for y := 1; y < 3; y++ {
+					for x := 0; x < w; x++ {
+						src.SetNRGBA64(3+x, y, color.NRGBA64{R: uint16(x * 7), G: 0xFFFF, B: uint16(x), A: uint16(x*13 + y)})
+					}
+				}
+				dst := image.NewRGBA64(image.Rect(0, 0, w, 2))
+				c := Case{Check: fmt.Sprintf("image-%s-NRGBA64 (%d pixels wide)", op, w), Space: s.Name}
+				ev.Journal("alpha", c)
+				pn, msg := ev.Guard(func() {
+					if op == "Linearise" {
+						s.LineariseImage(dst, src, 1+wi*3)
+					} else {
+						s.EncodeImage(dst, src, 1+wi*3)
+					}
+				})
+				evals += int64(2 * w)
+				nt += int64(2 * w)
+				if pn {
+					ev.Violation("alpha", s.Name+"/"+c.Check+"/panic", msg, c)
+					continue
+				}
+				for y := 0; y < 2; y++ {
+					for x := 0; x < w; x++ {
+						if o, a := dst.RGBA64At(x, y), uint16(x*13+y+1); o.A != a {
+							c.A, c.C = uint32(a), [3]uint32{uint32(x), uint32(y), 0}
+							ev.Violation("alpha", s.Name+"/"+c.Check+"/alpha-roundtrip", fmt.Sprintf("%s %sImage on a %d-pixel row: pixel %d has alpha %d in the source and %d in the result", s.Name, op, w, x, a, o.A), c)
+							y, x = 2, w
+						}
+					}
+				}
+			}
+		}
+	}
 	ev.Eval(evals)
 	ev.NTAdd(nt)
 	ev.Sample(Case{Check: "premult", Space: "adobergb", C: [3]uint32{1, 300, 299}, A: 300})
